@@ -203,6 +203,30 @@ Example C10_array_where_example :
             (fun i _ => if i =? 8 then None else Some false) = ErrOrd.
 Proof. split; vm_compute; reflexivity. Qed.
 
+(* asArray (what SetBuilder.Finish, hence =>, ++ and the set operators, end in) on EVERY non-empty list of item tuples,
+   superimposed or not: it returns; or it panics with makeslice, and then the index span max-min+1 is above the allocation
+   limit (dense storage, KF-C10-23); or it indexes an empty slice, and then the span is exactly 2^64 - the index range
+   crosses the int64 limit (KF-C10-33).  No other panic, no hang.  PARTIAL: that the returned array satisfies the
+   invariant is not proved here. *)
+From Arrai Require Import Proofs.SeqSafeAsArrayP.
+Theorem C10_as_array_panics_only_in_recorded_regions_partial :
+  forall (max_alloc : Z) (V : Type), 0 < max_alloc <= 281474976710656 ->
+  forall (values : list (Z * V)), values <> [] -> (forall t, In t values -> min_int <= fst t <= max_int) ->
+    match as_array max_alloc V values with
+    | Val _ => True
+    | Panic s => (s = SMakeslice /\ max_alloc < max_at values - min_at values + 1 < two64) \/
+                 (s = SIndex /\ max_at values - min_at values + 1 = two64)
+    | _ => False
+    end.
+Proof. intros max_alloc V Hmax values Hne Hr. exact (as_array_safe max_alloc V Hmax values Hne Hr). Qed.
+Print Assumptions C10_as_array_panics_only_in_recorded_regions_partial.
+
+(* instances: two items 3 apart give 4 cells; the two ends of the int64 range give the empty-slice panic of KF-C10-33 *)
+Example C10_as_array_example :
+  as_array 4294967296 Z [(5, 1); (2, 7)] = Val (RArr Z {| avals := [Some 7; None; None; Some 1]; aoff := 2; acnt := 2 |}) /\
+  as_array 4294967296 Z [(max_int, 1); (min_int, 2)] = Panic SIndex.
+Proof. split; vm_compute; reflexivity. Qed.
+
 (* the hypotheses are satisfiable by non-trivial values *)
 Example C10_inv_arr_example : inv_arr 4294967296 Z {| avals := [Some 1; None; None; Some 4]; aoff := -3; acnt := 2 |}.
 Proof. vm_compute. repeat split; congruence. Qed.
